@@ -81,6 +81,9 @@ def plan(tier):
     scn_ = S.T1(shared=S.VM1_CHAIN[:2], params={"test_timeout": 3600}, D=(1.0, 20000.0, 30000.0), O=S.PF).variant("/timeout=3600s,D<=3000s")
     scn_.max_steps, scn_.max_vtime = 400000, 100000.0
     p.append((scn_, 1 if q else 2, 1))
+    # every pair of run settings (dry run x pool filter, retries x timeouts, scopes x slots, ...) on a setup + leaf selection; durations include an
+    # overrun of the small timeout and a long run within the large one
+    p += S.settings_pairs(lambda **kw: S.T1(shared=S.VM1_CHAIN[:2], D=(1.0, 15.0), O=S.PF, **kw), tier)
     # configuration matrix: worker kinds x reuse scopes x slot bindings (same selection, default schedule and single deviations)
     p += S.config_matrix(lambda nets, **kw: S.T2(nets, O=S.PF, **kw), tier)
     return p
